@@ -509,6 +509,12 @@ pub fn check_main(a: CheckArgs) -> i32 {
                     let mut v = v;
                     v.detail.insert(0, format!("NOTE: under the same plan and the same scheduling decisions this violation occurs in {hits} of {} replays: the code under test is nondeterministic on its own (threads it starts itself, time, addresses) - `./check C08 --replay` may need several attempts", tries + 1));
                     reported.push((v, dest));
+                } else if v.component == "process-death" && v.detail.iter().any(|d| d.contains("did not finish within")) {
+                    // an execution that was killed for running out of its CPU / wall-clock allowance and that finishes
+                    // normally in every one of 7 replays was merely slow (a loaded or slow machine, a short leash after
+                    // an earlier timeout): a real loop or deadlock comes back at any budget. Not a finding, not an error.
+                    println!("NOTE: {} run {} was stopped for exceeding its time allowance and completes normally in 7 replays: not a finding", v.stratum, v.module);
+                    let _ = std::fs::remove_file(&v.replay);
                 } else {
                     harness_errors.push(format!("replay file {} did not reproduce its violation in a fresh process (7 attempts): {}", v.replay, out.lines().last().unwrap_or("")))
                 }
